@@ -2,7 +2,7 @@
 
 import ast
 
-from ..core.absint import Interp, alternatives, pretty
+from ..core.absint import Interp, alternatives, result_alternatives, pretty
 from ..core.analysis import Analysis, facts
 from ..core.forms import (NotPolynomial, Poly, Rat, canon, expand, srcinfo, to_rat)
 from ..core.pyrepo import Repo, calls_in, dotted, norm_stmt
@@ -100,7 +100,7 @@ def run(ctx):
             fi = repo.func(pm, q)
             t = canon(I2.call_function(fi, []))
             nts = []
-            for a in alternatives(t):
+            for a in result_alternatives(t):
                 if a[0] == "nt":
                     nts.append(a)
                 elif a[0] == "listof":
